@@ -123,4 +123,15 @@ CLAIMED['C15'] = (
     'DESIGN.md 3/C15',
 )
 
+CLAIMED['C12'] = (
+    'audit-descent rule over all audit overrides (CFG dominance + dataflow of the returned lists), collector exhaustiveness, gate dominance, who-may-call, raise-type lint over the anchor files, call-graph reachability of the nest validation (ast + CFG)',
+    'Decides "wherever the faulty element sits in the formula and under every operator kind" structurally: every audit override reaches the audit of every child on every path '
+    'and returns its findings; the three placement collectors union over all children with exactly one leaf and one absorbing operator each; the engine is reached only behind '
+    'audit + BiogemeError gates on the expression path, the estimation path (both ways of passing the log likelihood) and the simulation path; all 131 raise statements of the '
+    'anchor files construct the library error (or one of 12 frozen API exceptions); every model function validates its nests and validity predicates never answer from inside a '
+    'loop; the declared missing-data code reaches both engines; the data audit gates the Database constructor. One known finding (prepare before audit). Not decided: that valid '
+    'specifications are never rejected, message clarity, the engine-side missing-value test.',
+    'DESIGN.md 3/C12',
+)
+
 NOT_APPLICABLE = {f'C{i:02d}': WIP for i in range(1, 20)}
